@@ -21,6 +21,7 @@ LEVEL_ASSUMPTIONS = [
     "(validated on the documented Liu-Teng example at start-up)"]
 REQUIRED = {"model_comparisons": 1000, "history_dirty_dest": 500,
             "pair_history_decodes": 20000, "pair_instances": 8,
+            "hugearea_decodes": 20,
             "model_down_and_left": 200, "model_earlier_bin_used": 50,
             "model_forced_rotation": 20}
 
@@ -31,12 +32,17 @@ def plan(tier: str, seed: int):
                  "timeout": 900} for i in range(4)] + [
             {"name": f"p{i}", "engine": "jit", "args": {
                 "mode": "pairs", "n": 6, "budget": 40000},
-             "timeout": 900} for i in range(4)]
+             "timeout": 900} for i in range(4)] + [
+            {"name": "hugearea", "engine": "jit",
+             "args": {"mode": "hugearea", "steps": 12}, "timeout": 900}]
     return [{"name": f"s{i}", "engine": "jit", "args": {"n": 1500},
              "timeout": 3000} for i in range(12)] + [
         {"name": f"p{i}", "engine": "jit", "args": {
             "mode": "pairs", "n": 60, "budget": 400000},
-         "timeout": 3000} for i in range(12)]
+         "timeout": 3000} for i in range(12)] + [
+        {"name": f"hugearea{i}", "engine": "jit",
+         "args": {"mode": "hugearea", "steps": 40}, "timeout": 3000}
+        for i in range(4)]
 
 
 def _enc(inst, e):
@@ -151,9 +157,33 @@ def gen_steps(rng, desc, length):
     return steps
 
 
+def hugearea_shard(ctx, args):
+    """One instance whose bin AREA does not fit 64 bits (each side is within
+    the accepted 10^12): building it is pseudo-polynomial in the shorter
+    side (tens of seconds), so there is exactly one per run."""
+    rng = ctx.rng
+    W = 10 ** 12
+    H = int(rng.choice([9_300_000, 10 ** 7]))
+    if rng.integers(2):
+        W, H = H, W
+    items = [[int(rng.integers(1, 6)), int(rng.integers(1, 6)),
+              int(rng.integers(1, 3))] for _ in range(3)]
+    items.append([int(rng.integers(10 ** 6, 9 * 10 ** 6)), 3, 1])
+    desc = {"name": wb._name(rng), "W": W, "H": H, "items": items,
+            "cls": "hugearea"}
+    ctx.count("inst_cls[hugearea]")
+    for e in (1, 2):
+        steps = gen_steps(rng, desc, args.get("steps", 12))
+        run_history(ctx, desc, e, steps)
+        ctx.count("histories")
+        ctx.count("hugearea_decodes", len(steps))
+
+
 def run_shard(ctx, args):
     if args.get("mode") == "pairs":
         return pairs_shard(ctx, args)
+    if args.get("mode") == "hugearea":
+        return hugearea_shard(ctx, args)
     rng = ctx.rng
     classes = ["tiny", "general", "forcedrot", "general", "itembin",
                "smallgrid", "smallgrid", "dtype", "shipped", "unit", "twins",
